@@ -265,6 +265,7 @@ func main() {
 
 	// 8. gov EndBlocker: every call whose error is returned (an error returned by an end blocker halts the chain)
 	govHalts := govHalting(filepath.Join(repo, "x/gov/abci.go"))
+	govRecovers := govRecoverDirect(filepath.Join(repo, "x/gov/abci.go"))
 
 	// 5. the tail of gov Tally: divisions and early-return guards in source order
 	tallySteps, loopDivs := tallyTail(filepath.Join(repo, "x/gov/keeper/tally.go"))
@@ -299,6 +300,7 @@ func main() {
 	sb.WriteString("Definition gen_panic_sites : list (string * string) :=\n  [" + strings.Join(ss, ";\n   ") + "].\n")
 	sb.WriteString("Definition gen_oset_writers : list (string * string) :=\n  [" + strings.Join(writers, ";\n   ") + "].\n")
 	sb.WriteString("Definition gen_gov_halting_calls : list (string * string) :=\n  [" + strings.Join(govHalts, ";\n   ") + "].\n")
+	sb.WriteString(fmt.Sprintf("Definition gen_gov_safe_execute_recovers : bool := %v.\n", govRecovers))
 	sb.WriteString("Definition gen_oset_conditions : list (string * string) :=\n  [" + strings.Join(conds, ";\n   ") + "].\n")
 	if err := os.WriteFile(filepath.Join(out, "Gen_EndBlock.v"), []byte(sb.String()), 0o644); err != nil {
 		die("%v", err)
@@ -515,4 +517,59 @@ func govHalting(file string) []string {
 		die("no error-returning call found in %s", file)
 	}
 	return out
+}
+
+// govRecoverDirect: safeExecuteHandler defers a function LITERAL that calls the builtin recover() in its own body (recover
+// stops a panic only when called directly by the deferred function, not one frame deeper) and the handler call comes
+// after the defer statement.
+func govRecoverDirect(file string) bool {
+	fset := token.NewFileSet()
+	f, err := parser.ParseFile(fset, file, nil, 0)
+	if err != nil {
+		die("parse %s: %v", file, err)
+	}
+	for _, d := range f.Decls {
+		fd, ok := d.(*ast.FuncDecl)
+		if !ok || fd.Name.Name != "safeExecuteHandler" || fd.Body == nil {
+			continue
+		}
+		deferred := false
+		for _, st := range fd.Body.List {
+			if ds, ok := st.(*ast.DeferStmt); ok {
+				if fl, ok := ds.Call.Fun.(*ast.FuncLit); ok {
+					direct := false
+					ast.Inspect(fl.Body, func(n ast.Node) bool {
+						if _, nested := n.(*ast.FuncLit); nested {
+							return false
+						}
+						if c, ok := n.(*ast.CallExpr); ok {
+							if id, ok := c.Fun.(*ast.Ident); ok && id.Name == "recover" && len(c.Args) == 0 {
+								direct = true
+							}
+						}
+						return true
+					})
+					if direct {
+						deferred = true
+					}
+				}
+				continue
+			}
+			// a call of the handler before the recovering defer is not protected
+			calls := false
+			ast.Inspect(st, func(n ast.Node) bool {
+				if c, ok := n.(*ast.CallExpr); ok {
+					if id, ok := c.Fun.(*ast.Ident); ok && id.Name == "handler" {
+						calls = true
+					}
+				}
+				return true
+			})
+			if calls {
+				return deferred
+			}
+		}
+		return false
+	}
+	return false
 }
